@@ -291,7 +291,15 @@ Definition hash_one (h : list (string * string)) (r : mres) : res mres :=
     end
   else Ok r.
 
-Definition hash_all (h : list (string * string)) (m : rmap) : res rmap := mapM (hash_one h) m.
+(* ... followed by the re-check (fix "HashTransformer checks that the hash-suffixed names do not collide"): the id of every
+   renamed resource must occur exactly once in the map *)
+Definition hash_conflict_free (m : rmap) : bool :=
+  forallb (fun r => negb (needs_hash r)
+                    || Nat.eqb (List.length (filter (fun x => id_equals (cur r) (cur x)) m)) 1) m.
+
+Definition hash_all (h : list (string * string)) (m : rmap) : res rmap :=
+  do m' <- mapM (hash_one h) m;
+  if hash_conflict_free m' then Ok m' else Err.
 
 (* ---------- legacy order (SortOrderTransformer.go) ---------- *)
 
